@@ -64,6 +64,34 @@ def _noise14(rng: random.Random, kind: str) -> bytes:
 
 
 KINDS14 = ["uniform", "structural", "p1ish", "hdlcish"]
+BOUNDARY_OCTETS = [0x00, 0x0A, 0x0D, 0x1F, 0x21, 0x2F, 0x7F, 0x80, 0x81, 0xFF]
+
+
+def almost_readouts(rng: random.Random, k: int) -> bytes:
+    """Well-formed readouts with ONE octet replaced by a boundary value (in the identification line, the data block or the end line),
+    the checksum recomputed / absent / stale: everything else about the message checks out, so the accessors go all the way."""
+    out = b""
+    for j in range(3):
+        ident = P.rand_ident(rng)
+        lines = [P.rand_line(rng) for _ in range(rng.choice([1, 2, 4]))]
+        body = bytearray(ident + b"\r\n" + b"".join(l + b"\r\n" for l in lines) + b"!")
+        lo = [1, len(ident) + 2, len(ident) + 2][j]            # where the replaced octet may be: anywhere / data block / data block
+        pos = rng.randrange(lo, len(body) - 1) if len(body) - 1 > lo else lo
+        body[pos] = BOUNDARY_OCTETS[(k + j) % len(BOUNDARY_OCTETS)]
+        mode = (k // len(BOUNDARY_OCTETS) + j) % 3
+        c = P.crc16(bytes(body))
+        out += bytes(body) + (b"" if mode == 0 else (b"%04X" % c) if mode == 1 else b"1A2B") + b"\r\n"
+    return out
+
+
+def almost_frames(rng: random.Random, cfg) -> bytes:
+    """Frames damaged in one place with everything else right (truncated after the header check, wrong length with good checks, ...)."""
+    out = b""
+    for _ in range(3):
+        f = H.item_bytes(H.item_frame(rng, maxinfo=30))
+        for v in rng.sample(H.damaged_variants(rng, f), 3):
+            out += b"\x7e" + (H.stuff(v) if cfg[0] else v) + b"\x7e"
+    return out
 
 
 def _mk_c14_hdlc(args):
@@ -72,8 +100,8 @@ def _mk_c14_hdlc(args):
     out = []
     for k in range(n):
         cfg = H.CFGS[k % 4]
-        kind = KINDS14[(k // 4) % 4]
-        plan = [H.item_noise(_noise14(rng, kind)), H.item_flags(rng.choice([1, 2]))]
+        kind = (KINDS14 + ["almost"])[(k // 4) % 5]
+        plan = [H.item_noise(almost_frames(rng, cfg) if kind == "almost" else _noise14(rng, kind)), H.item_flags(rng.choice([1, 2]))]
         for j in range(rng.randint(2, 4)):
             it = H.item_frame(rng, maxinfo=40, sizes=[2, 3, 8, 20], tag=j)
             if len(it["info"]) < 2:
@@ -92,8 +120,8 @@ def _mk_c14_p1(args):
     rng = random.Random(seed)
     out = []
     for k in range(n):
-        kind = KINDS14[k % 4]
-        plan = [P.item_noise(_noise14(rng, kind))] + [P.item_readout(rng, tag=j, nlines=rng.choice([0, 1, 3])) for j in range(rng.randint(2, 4))]
+        kind = (KINDS14 + ["almost"])[k % 5]
+        plan = [P.item_noise(almost_readouts(rng, seed + k // 5) if kind == "almost" else _noise14(rng, kind))] + [P.item_readout(rng, tag=j, nlines=rng.choice([0, 1, 3])) for j in range(rng.randint(2, 4))]
         data = P.plan_wire(plan)
         cuts = chunkings(rng, len(data), 3)
         out.append(P.make_trace(data, cuts, mode="resync", plan=plan, origin="gen:c14:" + kind))
@@ -121,7 +149,7 @@ def run_c14(chk: Check) -> int:
     chk.sample({"reader": "hdlc", "cfg": t["cfg"], "origin": t["origin"], "noise": bytes(t["plan"][0]["o"][:30]).hex()})
     chk.assumptions += ["an exception out of read(), is_valid, payload, as_bytes, message_type or data_received() is recorded as an "
                         "observation and rejected by the contract; C16 clauses on the clean suffix are part of C14's statement"]
-    return chk.finish(rule="noise of four kinds (uniform 0..255; structural characters / ! LF CR 7E 7D >=0x80 hex/non-hex; P1-shaped fragments "
+    return chk.finish(rule="noise of five kinds (messages right in everything but one boundary-valued octet / one damaged place; uniform 0..255; structural characters / ! LF CR 7E 7D >=0x80 hex/non-hex; P1-shaped fragments "
                            "incl. '!' in the identification line, non-ASCII after '!'; HDLC-shaped fragments) followed by a clean suffix, "
                            ">=3 chunkings, both readers (HDLC in 4 configurations), both protocol classes with [HDLC,P1] and [P1,HDLC]; TLC "
                            "rejects any recorded exception and checks the suffix per C16; non-trivial = distinct noise prefix")
@@ -154,6 +182,20 @@ def deep_size(obj) -> int:
     return total
 
 
+def static_size() -> int:
+    """Size of everything the han package keeps at module and class level (caches, tables, memo dictionaries): what a reader makes the
+    package retain on its behalf is counted through the growth of this number over a run."""
+    roots = []
+    for name, m in list(sys.modules.items()):
+        if name == "han" or name.startswith("han."):
+            for v in list(vars(m).values()):
+                if isinstance(v, type) and getattr(v, "__module__", "").startswith("han"):
+                    roots += [x for x in vars(v).values() if not isinstance(x, _SKIP)]
+                elif not isinstance(v, _SKIP):
+                    roots.append(v)
+    return deep_size(roots)
+
+
 def _pattern_stream(reader: str, cfg, pattern: str, total: int, rng: random.Random):
     """Generator of the stream as an endless-like byte source of `total` octets (returned as one bytes object)."""
     FL, ES = b"\x7e", b"\x7d"
@@ -166,6 +208,13 @@ def _pattern_stream(reader: str, cfg, pattern: str, total: int, rng: random.Rand
             unit = FL + bytes(rng.randrange(256) for _ in range(5))
         elif pattern == "valid_frames":
             unit = FL + w
+        elif pattern == "distinct_frames":            # every frame different (running number in addresses and payload)
+            out, k = bytearray(), 0
+            while len(out) < total:
+                f = H.mkframe(dst=bytes([(k % 128) * 2, 1 + 2 * ((k // 128) % 128)]), info=b"%09d" % k)
+                out += FL + (H.stuff(f) if cfg[0] else f)
+                k += 1
+            return bytes(out[:total])
         elif pattern == "never_ending_frame":
             return FL + b"\xa7\xff\x01\x03\x13" + bytes(rng.choice(b"\x01\x02\x03\x10\x20\x55") for _ in range(total))
         elif pattern == "random":
@@ -192,6 +241,24 @@ def _pattern_stream(reader: str, cfg, pattern: str, total: int, rng: random.Rand
         return b"/ABC5id\r\n" + (b"1-0:1.8.0(00001.000*kWh)\r\n" * (total // 26 + 1))[:total]
     elif pattern == "valid_readouts":
         unit = ro
+    elif pattern == "distinct_readouts":         # every readout different: running number in the identification line and the data
+        out, k = [], 0
+        n = 0
+        while n < total:
+            body = b"/ABC5%012d\r\n0-0:96.1.0(%d)\r\n!" % (k, k)
+            x = body + (b"%04X\r\n" % P.crc16(body) if k % 2 else b"\r\n")
+            out.append(x)
+            n += len(x)
+            k += 1
+        return b"".join(out)[:total]
+    elif pattern == "distinct_ident_lines":      # identification lines only, every one different, never an end line
+        out, k, n = [], 0, 0
+        while n < total:
+            x = b"/XYZ3%013d\r\n" % k
+            out.append(x)
+            n += len(x)
+            k += 1
+        return b"".join(out)[:total]
     elif pattern == "random_ascii":
         return bytes(rng.choice(b"/!\r\n()*.:-0123456789ABCxyz ") for _ in range(total))
     elif pattern == "random":
@@ -208,9 +275,9 @@ def _pattern_stream(reader: str, cfg, pattern: str, total: int, rng: random.Rand
 
 
 HDLC_PATTERNS = ["all_flags", "flag_junk", "valid_frames", "never_ending_frame", "random", "esc_flag", "overshoot_then_flags", "header_then_flags",
-                 "escape_run", "escape_dense_frame"]
+                 "escape_run", "escape_dense_frame", "distinct_frames"]
 P1_PATTERNS = ["slash_lines_no_bang", "slash_no_lf", "ident_endless_lines", "valid_readouts", "random_ascii", "random", "no_lf_no_slash",
-               "slash_repeated", "ident_then_no_lf"]
+               "slash_repeated", "ident_then_no_lf", "distinct_readouts", "distinct_ident_lines"]
 
 
 def _mem_job(args):
@@ -227,6 +294,8 @@ def _mem_job(args):
     every = max(1, ncalls // 60)
     samples, raised = [], ""
     fed = 0
+    gc.collect()
+    base = static_size()
     for i in range(ncalls):
         ch = data[i * chunk:(i + 1) * chunk]
         try:
@@ -235,7 +304,7 @@ def _mem_job(args):
             raised = type(ex).__name__
         fed += len(ch)
         if i % every == 0 or i == ncalls - 1:
-            samples.append({"fed": fed, "chunk": len(ch), "deep": deep_size(r)})
+            samples.append({"fed": fed, "chunk": len(ch), "deep": deep_size(r) + max(0, static_size() - base)})
     return {"id": stable_id("mem", reader, cfg, pattern, total, chunk), "canary": "", "reader": reader,
             "cfg": {"stuffing": bool(cfg and cfg[0]), "abort": bool(cfg and cfg[1])}, "pattern": pattern, "total": total,
             "chunk": chunk, "raised": raised, "samples": samples}
